@@ -2,7 +2,10 @@ module verifharness
 
 go 1.25.0
 
-require github.com/gokrazy/rsync v0.0.0
+require (
+	github.com/gokrazy/rsync v0.0.0
+	golang.org/x/crypto v0.46.0
+)
 
 require (
 	github.com/google/renameio/v2 v2.0.2 // indirect
